@@ -1,5 +1,5 @@
 """C09 — literal encoding round-trips, matches the circuit bit layout, is validated."""
-import json, os
+import json, os, re
 from vlib import *
 import gen_lit as G
 
@@ -269,6 +269,106 @@ API_SCENARIOS = [
 ]
 
 
+def ty_src(T):
+    k = T[0]
+    if k == "bool":
+        return "bool"
+    if k in ("u", "s"):
+        return T[1]
+    if k == "arr":
+        return f"[{ty_src(T[1])}; {T[2]}]"
+    if k == "tup":
+        return "(" + ", ".join(ty_src(t) for t in T[1]) + ("," if len(T[1]) == 1 else "") + ")"
+    return T[1]
+
+
+def defs_src(defs):
+    out = []
+    for d in defs:
+        if d[0] == "struct":
+            out.append(f"struct {d[1]} {{ " + ", ".join(f"{f}: {ty_src(t)}" for f, t in d[2]) + " }")
+        else:
+            out.append(f"enum {d[1]} {{ " + ", ".join(v if p is None else f"{v}(" + ", ".join(ty_src(t) for t in p) + ")"
+                                                      for v, p in d[2]) + " }")
+    return "\n".join(out)
+
+
+IDENT = re.compile(r"[A-Za-z_][A-Za-z_0-9]*")
+
+
+def parg_tie_pass(ck, quick):
+    """the model of lib.rs parse_arg / literal.rs Literal::parse (Check/LitParse.v: model scanner -> literal mode of the
+    model parser -> model checker -> check_type -> into_literal -> is_of_type re-test, on the model parser's program)
+    against prg.parse_arg(i, text): same literal, or both refuse"""
+    rng = ck.rng
+    progs = []      # (src, [(idx, text)])
+    for name, src, exts, args, _ in API_SCENARIOS:
+        if not exts:
+            progs.append((src, list(args)))
+    for ti in range(60 if quick else 1500):
+        tg = G.TypeGen(rng)
+        T = tg.ty(rng.choice([1, 2, 2, 3]))
+        try:
+            if G.size(T, tg.by_name) > 2000:
+                continue
+        except ValueError:
+            continue
+        src = defs_src(tg.defs) + f"\npub fn main(x: {ty_src(T)}, d: bool) -> bool {{ d }}"
+        args = []
+        for _ in range(10):
+            lit = G.value(rng, T, tg.by_name, spell=rng.random() < 0.4)
+            r = rng.random()
+            if r < 0.35:
+                text = G.show(lit, typed=rng.random() < 0.3)
+            elif r < 0.55:
+                lit2, _m = G.mutate(rng, lit, T, tg)
+                text = G.show(lit2, typed=rng.random() < 0.3)
+            else:
+                text, _m = G.perturb_text(rng, G.show(lit, typed=rng.random() < 0.3))
+            args.append((0, text))
+        args += [(1, "true"), (1, "1"), (0, ""), (2, "true")]
+        progs.append((src, args))
+    jobs = []
+    for i, (src, args) in enumerate(progs):
+        names = sorted(set(IDENT.findall(src + " " + " ".join(t for _, t in args))), key=lambda x: x.encode())
+        jobs.append(f"(parg q{i} (src {quote(src)}) (names " + " ".join(quote(n) for n in names) + ") "
+                    + " ".join(f"(arg {k} {quote(t)})" for k, t in args) + ")")
+    rs = run_jobs(GVRUN, jobs, "c09.parg.rs", timeout_per_job=3.0)
+    ml = run_jobs(MODELRUN, jobs, "c09.parg.ml", timeout_per_job=5.0)
+    cnt, bad = {}, 0
+    for i, (src, args) in enumerate(progs):
+        r, m = rs.get(f"q{i}", "(no-result)").strip(), ml.get(f"q{i}", "(no-result)").strip()
+        if r.startswith("(compile") or m.startswith("(program-") or m == "(no-result)" or r == "(no-result)":
+            cnt["program skipped"] = cnt.get("program skipped", 0) + 1
+            continue
+        try:
+            rr, mm = sx_parse(r), sx_parse(m)
+        except Exception:
+            cnt["unparsable"] = cnt.get("unparsable", 0) + 1
+            continue
+        for (idx, text), a, b in zip(args, rr, mm):
+            sa, sb = sx_dump(a), sx_dump(b)
+            if sb in ("(outside)", "(nofuel)"):
+                kind = "outside-model"
+            elif sa == sb:
+                kind = "same literal" if sa.startswith("(ok") else "both refuse"
+            else:
+                kind = "differ"
+                bad += 1
+                if bad <= 3:
+                    ck.violation("the model of parse_arg (Check/LitParse.v) and the real parse_arg disagree on this argument text",
+                                 {"program": src, "parameter": idx, "text": text, "rust": sa[:300], "model": sb[:300],
+                                  "correspondence": "Check/LitParse.v literal_parse_program vs GarbleProgram::parse_arg"},
+                                 found_input=False)
+            cnt[kind] = cnt.get(kind, 0) + 1
+    ck.obligation("correspondence Check/LitParse.v = lib.rs parse_arg / literal.rs Literal::parse: the model (scanner, literal mode of "
+                  "the parser, checker, check_type, into_literal, is_of_type) returns the same literal as the real API for every "
+                  "generated, mutated and damaged argument text, or both refuse", bad == 0, f"{bad} differ; {cnt}")
+    ck.obligation("parse_arg tie: at least 150 texts are accepted with the same literal and 150 refused by both",
+                  cnt.get("same literal", 0) >= 150 and cnt.get("both refuse", 0) >= 150, str(cnt))
+    ck.coverage["parse_arg_model_tie"] = {"programs": len(progs), "by_kind": cnt}
+
+
 def number_text_scenarios():
     """unsuffixed and suffixed number texts at and beyond the boundaries of every integer type (and of u64 / i64, where
     the scanner's own limits are), at top level and nested: accepted iff the number is a value of the type, and then
@@ -480,6 +580,8 @@ def run(ck):
             r2_checked += 1
 
     n_api = api_scenarios(ck)
+    if ck.harness_ok and ck.model_ok:
+        parg_tie_pass(ck, quick)
     total = len(jobs) + len(round2) + n_api
     ck.obligation("correspondence: literal_arg/is_of_type, as_bits, from_unwrapped_bits equal the model on every "
                   "generated (definitions, type, literal) and on every literal that parsing produced",
